@@ -30,11 +30,11 @@ Lemma Forall_nth' {A} (P : A -> Prop) l d j : Forall P l -> (j < length l)%nat -
 Proof. intros H. revert j. induction H; intros j Hj; [cbn in Hj; lia|]. destruct j; cbn; [assumption|apply IHForall; cbn in Hj; lia]. Qed.
 
 (* |m m' - a a'| for entries of the two matrices *)
-Lemma kron_entry_accuracy k i l j : (k < 8)%nat -> (i < 8)%nat -> (l < 8)%nat -> (j < 8)%nat ->
+Lemma kron_entry_accuracy k i l j : matrix_accuracy_fact -> (k < 8)%nat -> (i < 8)%nat -> (l < 8)%nat -> (j < 8)%nat ->
   Rabs (mR k i * mR l j - aR k i * aR l j) <= 2815 / 1000 * acc_delta.
 Proof.
-  intros. destruct (matrix_accuracy_cases k i) as [A1 [B1 C1]]; try assumption.
-  destruct (matrix_accuracy_cases l j) as [A2 [B2 C2]]; try assumption.
+  intros Hacc ? ? ? ?. destruct (matrix_accuracy_cases Hacc k i) as [A1 [B1 C1]]; try assumption.
+  destruct (matrix_accuracy_cases Hacc l j) as [A2 [B2 C2]]; try assumption.
   replace (mR k i * mR l j - aR k i * aR l j) with (mR k i * (mR l j - aR l j) + (mR k i - aR k i) * aR l j) by ring.
   eapply Rle_trans; [apply Rabs_triang|]. rewrite !Rabs_mult.
   assert (0 <= Rabs (mR l j - aR l j)) by apply Rabs_pos. assert (0 <= Rabs (mR k i - aR k i)) by apply Rabs_pos.
@@ -83,11 +83,11 @@ Lemma dct2_real (X : nat -> R) j :
   8 * ap 64 dctA2 X j = rsum 64 (fun p => aR (j / 8) (p / 8) * aR (j mod 8) (p mod 8) * X p).
 Proof. unfold ap. rewrite <- rsum_scal. apply rsum_ext. intros p _. rewrite aR_kron. ring. Qed.
 
-Lemma const_part cf (X : nat -> R) j : (j < 64)%nat -> 0 <= cmax cf -> (forall p, (p < 64)%nat -> Rabs (X p) <= cmax cf) ->
+Lemma const_part cf (X : nat -> R) j : matrix_accuracy_fact -> (j < 64)%nat -> 0 <= cmax cf -> (forall p, (p < 64)%nat -> Rabs (X p) <= cmax cf) ->
   Rabs (rsum 64 (fun p => mR (j / 8) (p / 8) * mR (j mod 8) (p mod 8) * X p) -
         rsum 64 (fun p => aR (j / 8) (p / 8) * aR (j mod 8) (p mod 8) * X p)) <= 64 * (2815 / 1000 * acc_delta * cmax cf).
 Proof.
-  intros Hj Hc0 HX.
+  intros Hacc Hj Hc0 HX.
   replace (rsum 64 (fun p => mR (j / 8) (p / 8) * mR (j mod 8) (p mod 8) * X p) -
            rsum 64 (fun p => aR (j / 8) (p / 8) * aR (j mod 8) (p mod 8) * X p))
     with (rsum 64 (fun p => (mR (j / 8) (p / 8) * mR (j mod 8) (p mod 8) - aR (j / 8) (p / 8) * aR (j mod 8) (p mod 8)) * X p)).
@@ -98,7 +98,7 @@ Proof.
   rewrite Rabs_mult.
   assert (Hk : Rabs (mR (j / 8) (p / 8) * mR (j mod 8) (p mod 8) - aR (j / 8) (p / 8) * aR (j mod 8) (p mod 8))
                <= 2815 / 1000 * acc_delta).
-  { apply kron_entry_accuracy; try (apply Nat.div_lt_upper_bound; lia); apply Nat.mod_upper_bound; lia. }
+  { apply (kron_entry_accuracy _ _ _ _ Hacc); try (apply Nat.div_lt_upper_bound; lia); apply Nat.mod_upper_bound; lia. }
   specialize (HX p Hp).
   assert (0 <= Rabs (X p)) by apply Rabs_pos.
   generalize dependent (Rabs (mR (j / 8) (p / 8) * mR (j mod 8) (p mod 8) - aR (j / 8) (p / 8) * aR (j mod 8) (p mod 8))).
@@ -106,17 +106,17 @@ Proof.
   destruct (Rle_dec 0 r); nra.
 Qed.
 
-Lemma fdct_accuracy_coef : forall cf data j, cfg_ok cf -> length data = 64%nat ->
+Lemma fdct_accuracy_coef : matrix_accuracy_fact -> forall cf data j, cfg_ok cf -> length data = 64%nat ->
   Forall (inb (centersample cf)) data -> (j < 64)%nat ->
   Rabs (vecZ (fdct_islow cf data) j / 8 - ap 64 dctA2 (vecZ data) j) <= eta8 cf / 8.
 Proof.
-  intros cf data j Hok Hlen HF Hj.
+  intros Hacc cf data j Hok Hlen HF Hj.
   assert (Hc0 : 0 <= cmax cf) by (unfold cmax; apply IZR_le; destruct Hok as [[H _]|[H _]]; unfold centersample; rewrite H; vm_compute; discriminate).
   pose proof (coef_round_real cf data j Hok Hlen HF Hj) as HrR.
   assert (HX : forall p, (p < 64)%nat -> Rabs (vecZ data p) <= cmax cf).
   { intros p Hp. unfold vecZ, cmax. pose proof (Forall_nth' _ data 0%Z p HF ltac:(lia)) as Hb. unfold inb in Hb.
     destruct Hb as [Hb1 Hb2]. apply IZR_le in Hb1, Hb2. rewrite opp_IZR in Hb1. apply Rabs_le. lra. }
-  pose proof (const_part cf (vecZ data) j Hj Hc0 HX) as HC.
+  pose proof (const_part cf (vecZ data) j Hacc Hj Hc0 HX) as HC.
   rewrite <- lin2_real, <- dct2_real in HC.
   unfold vecZ at 1.
   generalize dependent (IZR (nth j (fdct_islow cf data) 0%Z)). generalize dependent (IZR (lin2_entry data j) / 67108864).
@@ -129,11 +129,11 @@ Proof.
   lra.
 Qed.
 
-Theorem fdct_accuracy_proof : forall cf data, cfg_ok cf -> length data = 64%nat ->
+Theorem fdct_accuracy_proof : matrix_accuracy_fact -> forall cf data, cfg_ok cf -> length data = 64%nat ->
   Forall (inb (centersample cf)) data ->
   norm2 64 (fun k => vecZ (fdct_islow cf data) k / 8 - ap 64 dctA2 (vecZ data) k) <= e1_bound cf * e1_bound cf.
 Proof.
-  intros cf data Hok Hlen HF.
+  intros Hacc cf data Hok Hlen HF.
   pose proof (fdct_rounding_error_proof cf data Hok Hlen HF) as HR.
   pose proof (fdct_lin2d_kronecker data Hlen) as HK.
   assert (HlenF : length (fdct_islow cf data) = 64%nat) by (apply fdct_length; exact Hlen).
@@ -143,7 +143,7 @@ Proof.
   assert (Heta : 0 <= eta8 cf) by (unfold eta8, acc_delta; nra).
   assert (Hper : forall j, (j < 64)%nat ->
             Rabs (vecZ (fdct_islow cf data) j / 8 - ap 64 dctA2 (vecZ data) j) <= eta8 cf / 8)
-    by (intros j Hj; apply fdct_accuracy_coef; assumption).
+    by (intros j Hj; apply (fdct_accuracy_coef Hacc); assumption).
   (* sum of 64 squares *)
   unfold norm2, dot, e1_bound.
   eapply Rle_trans.
